@@ -6,11 +6,11 @@ C03/C11/C01 prove their hand models equal to these definitions."""
 import vf
 
 SPEC = {
-    "uses_gen": ["Mathutil", "Fee", "CoinHours", "Page", "Droplet", "CoinLoops", "FeeTxn"],
+    "uses_gen": ["Mathutil", "Fee", "CoinHours", "Page", "Droplet", "CoinLoops", "FeeTxn", "CoinTruncate"],
     "cmd": "c31",
     "budget": (400, 20000),
     "header": "From Sky Require Import Base.Uint Model.ArithSpec Model.HoursSpec.\nOpen Scope Z_scope.",
-    "gen_header": "From Sky Require Import Gen.Mathutil Gen.Fee Gen.CoinHours Gen.CoinLoops Gen.FeeTxn.",
+    "gen_header": "From Sky Require Import Gen.Mathutil Gen.Fee Gen.CoinHours Gen.CoinLoops Gen.FeeTxn Gen.CoinTruncate.",
     "corr": "C31_corr.v",
     "prop": "C31_prop.v",
     "groups": {
@@ -32,10 +32,12 @@ SPEC = {
         "l_vhs": ("mism_l_vhs", "pf_l_vhs"),
         "l_txfee": ("mism_l_txfee", "pf_l_txfee"),
         "l_vtf": ("mism_l_vtf", "pf_l_vtf"),
+        "l_trunc": ("mism_l_trunc", "pf_l_trunc"),
     },
     "trusted_base": [
-        "translator /verif/translator (Go->Gallina for mathutil, fee, UxOut.CoinHours; loops over slices of structs for Transaction.OutputHours, UxArray.Coins / CoinHours, VerifyTransactionCoinsSpending / HoursSpending, fee.TransactionFee / VerifyTransactionFee), validated on this run against the implementation on the generated points",
+        "translator /verif/translator (Go->Gallina for mathutil, fee, UxOut.CoinHours; loops over slices of structs for Transaction.OutputHours, UxArray.Coins / CoinHours, VerifyTransactionCoinsSpending / HoursSpending, fee.TransactionFee / VerifyTransactionFee, Transactions.TruncateBytesTo), validated on this run against the implementation on the generated points",
         "projection of slice arguments to lists of the integer fields the function uses (named in the translator's manifest and in the comment above each Gen definition), rebuilt by the harness",
+        "TruncateBytesTo: what txns[i].Size() returns (value, error) is DATA of each list element (the method is not translated; assumed a pure function of the transaction)",
         "Go `int` is 64 bits (IntToUint32)",
         "harness printer of inputs/outputs as Coq terms; error identity = sentinel name or message prefix",
     ],
